@@ -279,5 +279,79 @@ pub fn run(o: &Opts) {
             sh.push(format!("C [] [R {} {} OOpaque]", seen.len(), coq::bool_(code == 0)), vec![rep]);
         }
     }
+    // conversions: equally good chains with different rates, and several missing rates
+    if !replay {
+        let n_conv = if o.thorough { 40 } else { 10 };
+        let comm = ["AAPL", "CHF", "EUR", "JPY", "USD"];
+        for k in 0..n_conv {
+            let a = comm[(k + r.below(5) as usize) % 5];
+            let others: Vec<&str> = comm.iter().copied().filter(|c| *c != a).collect();
+            let (m1, m2, t) = (others[0], others[1], others[2]);
+            // a -> m1 -> t and a -> m2 -> t on the same day: a genuine tie with different products
+            let db = format!(
+                "P 2020/01/11 00:00:00 {a} {r1} {m1}\nP 2020/01/11 00:00:00 {m1} {r2} {t}\nP 2020/01/11 00:00:00 {a} {r3} {m2}\nP 2020/01/11 00:00:00 {m2} {r4} {t}\n",
+                a = a, m1 = m1, m2 = m2, t = t, r1 = 80 + r.below(5), r2 = "1.25", r3 = 50 + r.below(5), r4 = 4
+            );
+            let ledger = format!(
+                "2020/01/05 open\n    Assets:Bank  10 {a}\n    Assets:Cash  3 {m1}\n    Assets:Cash  7 {m2}\n    Equity:Opening\n",
+                a = a, m1 = m1, m2 = m2
+            );
+            let lp = scratch.write(&format!("conv{}/l.ledger", k), &ledger);
+            let dbp = scratch.write(&format!("conv{}/prices.db", k), &db);
+            for (tag, args) in [
+                ("tie", vec!["balance".to_string(), lp.to_string_lossy().to_string(), "-X".to_string(), t.to_string(), "--now".to_string(), "2020-02-01".to_string(), "--price-db".to_string(), dbp.to_string_lossy().to_string()]),
+                ("missing", vec!["balance".to_string(), lp.to_string_lossy().to_string(), "-X".to_string(), t.to_string(), "--now".to_string(), "2020-02-01".to_string()]),
+                ("eval-tie", vec!["primitive".to_string(), "eval".to_string(), "--date".to_string(), "2020-02-01".to_string(), "-f".to_string(), lp.to_string_lossy().to_string(), "-X".to_string(), t.to_string(), "--price-db".to_string(), dbp.to_string_lossy().to_string(), format!("1 {}", a)]),
+            ] {
+                let mut seen: HashSet<(i32, String, String)> = HashSet::new();
+                let mut code = 0;
+                let mut first_err = String::new();
+                for _ in 0..n_runs.max(12) {
+                    let out = run_bin(&bin, &args);
+                    code = out.code;
+                    if first_err.is_empty() {
+                        first_err = strip_ansi(&out.stderr).chars().take(200).collect();
+                    }
+                    seen.insert((out.code, out.stdout, out.stderr));
+                }
+                st.eval(&(ledger.clone(), db.clone(), tag), true);
+                st.count(&format!("cmd:convert-{}:{}", tag, if code == 0 { "ok" } else { "fail" }));
+                let rep = json!({"property": "C13", "ledger": ledger, "price_db": db, "args": args, "distinct_outputs": seen.len(), "stderr": first_err,
+                                 "reproduce": "run the command repeatedly in fresh processes and diff"});
+                sh.push(format!("C [] [R {} {} OOpaque]", seen.len(), coq::bool_(code == 0)), vec![rep]);
+            }
+        }
+        // Camt053: one rule whose matcher has several capturing fields
+        let base = format!("{}/cli/tests/testdata/import", std::env::var("OKV_REPO").unwrap_or_else(|_| "/repo".to_string()));
+        if let Ok(xml) = std::fs::read_to_string(format!("{}/iso_camt.xml", base)) {
+            let fields = ["creditor_name", "debtor_name", "ultimate_debtor_name", "additional_transaction_info", "remittance_unstructured_info", "additional_entry_info"];
+            let n_camt = if o.thorough { 20 } else { 6 };
+            for k in 0..n_camt {
+                let mut fs: Vec<&str> = fields.to_vec();
+                r.shuffle(&mut fs);
+                fs.truncate(2 + r.below(2) as usize);
+                let mut yml = String::from("path: iso_camt.xml\nencoding: UTF-8\naccount: Assets:Okane Bank\naccount_type: asset\noperator: Okane Bank (fee)\ncommodity: CHF\nrewrite:\n  - matcher:\n");
+                for f in &fs {
+                    yml.push_str(&format!("      {}: \"(?P<payee>.*)\"\n", f));
+                }
+                yml.push_str("    account: Expenses:Any\n");
+                let cfg = scratch.write(&format!("camt{}/config.yml", k), &yml);
+                let src = scratch.write(&format!("camt{}/iso_camt.xml", k), &xml);
+                let args = vec!["import".to_string(), "--config".to_string(), cfg.to_string_lossy().to_string(), src.to_string_lossy().to_string()];
+                let mut seen: HashSet<(i32, String, String)> = HashSet::new();
+                let mut code = 0;
+                for _ in 0..n_runs.max(12) {
+                    let out = run_bin(&bin, &args);
+                    code = out.code;
+                    seen.insert((out.code, out.stdout, out.stderr));
+                }
+                st.eval(&yml, true);
+                st.count(&format!("cmd:import-camt-multifield:{}", if code == 0 { "ok" } else { "fail" }));
+                let rep = json!({"property": "C13", "import_config": yml, "statement": "cli/tests/testdata/import/iso_camt.xml", "distinct_outputs": seen.len(),
+                                 "reproduce": "okane import --config config.yml iso_camt.xml, repeated in fresh processes"});
+                sh.push(format!("C [] [R {} {} OOpaque]", seen.len(), coq::bool_(code == 0)), vec![rep]);
+            }
+        }
+    }
     sh.finish(&st);
 }
